@@ -50,7 +50,10 @@ partial def helpParseTree (j : Json) : R Tree := do
   let leaves ← (← arr j "leaves").toList.mapM helpParseLeaf
   let over ← (← arr j "over").toList.mapM helpParsePairOpt
   let kids ← (← arr j "kids").toList.mapM helpParseTree
-  return .node (chars (← str j "cls")) (chars (← str j "name")) leaves over kids
+  let cmd := match j.getObjValAs? Bool "cmd" with
+    | .ok b => b
+    | .error _ => true
+  return .node (chars (← str j "cls")) (chars (← str j "name")) leaves over kids cmd
 
 def helpParseForest (c : Json) : R Forest := do
   (← arr c "forest").toList.mapM (fun r => do
